@@ -474,7 +474,7 @@ def c16(tier):
             # batches that touch only a child collection (stackDirtyTop non-nil but without a segment of its own: the merger's
             # and the writers' notions of "empty" must agree or nobody wakes the merger); no closer that would end a hang;
             # these runs are watched for calls that do not return only (TraceSync's heights count top-level segments)
-            cfgs[-1].update({"kids": True, "mixKids": True, "closer": False, "maxPre": 1, "hangOnly": True})
+            cfgs[-1].update({"kids": True, "mixKids": True, "closer": False, "notifiers": 0, "maxPre": 1, "hangOnly": True})
         if n % 8 == 6:
             # a lower level that returns an error for every update: Close must still return (the persister has to look at
             # the stop channel between two attempts), and it releases the writers that back-pressure has blocked by then
